@@ -836,9 +836,9 @@ class FloatTr:
         self.self_kind, self.is_abs, self.opres = self_kind, is_abs, opres
         self.param_types = dict(param_types)
         env0 = {n: (V(zlit(fixed[n]), Z, fixed[n]) if n in fixed else V("v_" + n, t)) for n, t in param_types}
-        if self_kind == DUR:
-            env0["self"] = V("v_self", DUR)
-            self.param_types["self"] = DUR
+        if self_kind not in (None, TD):
+            env0["self"] = V("v_self", self_kind)
+            self.param_types["self"] = self_kind
         body = list(fn.body)
         self.pure, self.n, self.pre, self.used_bind, self.ret_ty = False, 0, [], False, None
         out = self.block(body, env0, {})
@@ -847,7 +847,7 @@ class FloatTr:
             out = self.block(body, env0, {})
         monadic = not self.pure
         rty = DUR if self_kind == TD else self.ret_ty
-        params = ([("v_self", DUR)] if self_kind == DUR else []) + [("v_" + n, t) for n, t in param_types if n not in fixed]
+        params = ([("v_self", self_kind)] if self_kind not in (None, TD) else []) + [("v_" + n, t) for n, t in param_types if n not in fixed]
         sig = " ".join(f"({n} : {self.coq_type(t)})" for n, t in params)
         rt = f"result {self.coq_type(rty)}" if monadic else self.coq_type(rty)
         return f"Definition {coq_name} {sig} : {rt} :=\n  {out}.\n", rty, monadic
